@@ -51,6 +51,13 @@ pub fn all() -> Vec<Scenario> {
         Scenario { name: "scope_node_outlives_bind", props: &["C04", "C03"], run: scope_node_outlives_bind },
         Scenario { name: "scope_node_kept_while_bind_input_grows", props: &["C03", "C02", "C11"], run: scope_node_kept_while_bind_input_grows },
         Scenario { name: "observe_scope_node_of_unobserved_bind", props: &["C04"], run: observe_scope_node_of_unobserved_bind },
+        Scenario { name: "node_linked_while_its_input_is_lifted", props: &["C02", "C11", "C04"], run: node_linked_while_its_input_is_lifted },
+        Scenario { name: "perkey_result_dropped_input_node_kept", props: &["C12", "C04", "C16"], run: perkey_result_dropped_input_node_kept },
+        Scenario { name: "nested_scope_node_jumps_the_queue", props: &["C03", "C02"], run: nested_scope_node_jumps_the_queue },
+        Scenario { name: "mapref_projection_of_superseded_bind_run", props: &["C03"], run: mapref_projection_of_superseded_bind_run },
+        Scenario { name: "expert_edge_callback_of_superseded_bind_run", props: &["C03"], run: expert_edge_callback_of_superseded_bind_run },
+        Scenario { name: "nested_scope_node_orphaned_by_dropped_inner_bind", props: &["C03"], run: nested_scope_node_orphaned_by_dropped_inner_bind },
+        Scenario { name: "shrink_limit_after_tall_graph_released", props: &["C19"], run: shrink_limit_after_tall_graph_released },
         Scenario { name: "nested_var_write_inside_deferred_modify", props: &["C04", "C08"], run: nested_var_write_inside_deferred_modify },
         Scenario { name: "on_update_added_from_on_update_handler", props: &["C04"], run: on_update_added_from_on_update_handler },
         Scenario { name: "unsubscribe_from_drop_of_handler_capture", props: &["C04", "C10", "C12"], run: unsubscribe_from_drop_of_handler_capture },
@@ -1020,5 +1027,303 @@ fn state_unsubscribe_before_first_stabilise() -> Result<(), String> {
     st.stabilise();
     check!(hits.get() == 200, "second round: {}", hits.get());
     check!(o.try_get_value() == Ok(2), "observer {:?}", o.try_get_value());
+    Ok(())
+}
+
+
+/// A node becomes necessary; linking its *second* input (a bind that becomes necessary again) lifts
+/// its *first* input, and through it the node itself; `became_necessary` then overwrote the node's
+/// height with the one it had accumulated before the lift (defect #24, pointed out by a seeding
+/// agent). Debug builds hit an assertion in the adjust-heights heap, release builds ran the node
+/// twice in the next round.
+fn node_linked_while_its_input_is_lifted() -> Result<(), String> {
+    let st = IncrState::new();
+    let log: Rc<RefCell<Vec<(i64, i64, i64)>>> = Rc::new(RefCell::new(vec![]));
+    let k = st.var(0i64);
+    let grow = st.var(false);
+    let short0 = k.watch();
+    let tall0 = k.map(|x| *x).map(|x| *x).map(|x| *x).map(|x| *x);
+    let lh = grow.bind(move |&g| if g { tall0.clone() } else { short0.clone() });
+    let _o_lh = lh.observe();
+    let w = st.var(10i64);
+    let slot: Rc<RefCell<Option<Incr<i64>>>> = Rc::new(RefCell::new(None));
+    let (slot2, ww) = (slot.clone(), w.watch());
+    let b = lh.bind(move |_| {
+        let x = ww.map(|v| *v);
+        slot2.borrow_mut().replace(x.clone());
+        x
+    });
+    let o_b = b.observe();
+    st.stabilise();
+    let x = slot.borrow().clone().unwrap();
+    let q = st.var(1i64);
+    let c1 = x.map(|v| *v).map(|v| *v).map2(&q, |a, b| *a + *b);
+    let o_c1 = c1.observe();
+    st.stabilise();
+    check!(o_c1.try_get_value() == Ok(11), "c1 {:?}", o_c1.try_get_value());
+    drop(o_b);
+    st.stabilise();
+    grow.set(true);
+    st.stabilise();
+    let z = st.var(100i64);
+    let l2 = log.clone();
+    let p = c1.map3(&b, &z, move |c, m, z| {
+        l2.borrow_mut().push((*c, *m, *z));
+        *c + *m + *z
+    });
+    let o_p = p.observe();
+    st.stabilise();
+    check!(o_p.try_get_value() == Ok(121), "p {:?}", o_p.try_get_value());
+    let a = st.verif_audit();
+    check!(a.is_empty(), "audit after linking p: {}", a.join(" / "));
+    log.borrow_mut().clear();
+    z.set(200);
+    q.set(2);
+    st.stabilise();
+    check!(log.borrow().as_slice() == [(12, 10, 200)], "p must run once, on final inputs; calls: {:?}", log.borrow());
+    check!(o_p.try_get_value() == Ok(222), "p {:?}", o_p.try_get_value());
+    let a = st.verif_audit();
+    check!(a.is_empty(), "audit at the end: {}", a.join(" / "));
+    Ok(())
+}
+
+
+/// The per-key function of `incr_mapi_` hands its per-key input node out and the user keeps
+/// observing it after every handle of the operator's result is gone: the operator's internal
+/// closure keeps running and unwrapped a dead weak reference to the result node (defect #25,
+/// pointed out by a seeding agent).
+fn perkey_result_dropped_input_node_kept() -> Result<(), String> {
+    fn go<M>(name: &str, mk: fn(&BTreeMap<i64, i64>) -> M, run: fn(&Incr<M>, Rc<RefCell<Vec<(i64, Incr<i64>)>>>) -> Box<dyn std::any::Any>) -> Result<(), String>
+    where
+        M: incremental::Value,
+    {
+        let st = IncrState::new();
+        let stash: Rc<RefCell<Vec<(i64, Incr<i64>)>>> = Rc::new(RefCell::new(vec![]));
+        let mut m: BTreeMap<i64, i64> = BTreeMap::new();
+        m.insert(1, 1);
+        m.insert(3, 30);
+        let mv = st.var(mk(&m));
+        let out = run(&mv.watch(), stash.clone());
+        st.stabilise();
+        let per_key: Vec<(i64, Incr<i64>)> = stash.borrow().clone();
+        check!(per_key.len() == 2, "{name}: {} per-key nodes", per_key.len());
+        let obs: Vec<(i64, incremental::Observer<i64>)> = per_key.iter().map(|(k, n)| (*k, n.observe())).collect();
+        st.stabilise();
+        drop(out); // the observer and every handle of the result
+        stash.borrow_mut().clear();
+        drop(per_key);
+        st.stabilise();
+        m.insert(1, 5);
+        mv.set(mk(&m));
+        st.stabilise();
+        check!(obs[0].1.try_get_value() == Ok(5), "{name}: value updates no longer reach the per-key node: {:?}", obs[0].1.try_get_value());
+        m.insert(2, 7); // a new key
+        mv.set(mk(&m));
+        st.stabilise();
+        m.remove(&3); // an old key goes
+        m.insert(1, 6);
+        mv.set(mk(&m));
+        st.stabilise();
+        check!(obs[0].1.try_get_value() == Ok(6), "{name}: after a removal {:?}", obs[0].1.try_get_value());
+        check!(obs[1].1.try_get_value() == Err(ObserverError::ObservingInvalid), "{name}: per-key node of a removed key reads {:?}", obs[1].1.try_get_value());
+        m.remove(&2); // the key that was added after the result had gone
+        m.insert(3, 31);
+        mv.set(mk(&m));
+        st.stabilise();
+        let a = st.verif_audit();
+        check!(a.is_empty(), "{name}: audit: {}", a.join(" / "));
+        drop(obs);
+        st.stabilise();
+        Ok(())
+    }
+    go::<BTreeMap<i64, i64>>("BTreeMap", |m| m.clone(), |i, stash| {
+        let out = i.incr_mapi_(move |k, input| {
+            stash.borrow_mut().push((*k, input.clone()));
+            input.map(|x| x + 1)
+        });
+        Box::new((out.observe(), out))
+    })?;
+    go::<im_rc::OrdMap<i64, i64>>("OrdMap", |m| m.iter().map(|(k, v)| (*k, *v)).collect(), |i, stash| {
+        let out = i.incr_filter_mapi_(move |k, input| {
+            stash.borrow_mut().push((*k, input.clone()));
+            input.map(|x| Some(x + 1))
+        });
+        Box::new((out.observe(), out))
+    })
+}
+
+
+type Slot<T> = Rc<RefCell<Option<Incr<T>>>>;
+
+/// builds `b1 = l.bind(|v1| { b2 = y.bind(|v2| r = x.map(|x| x + v1 + v2)); leak b2, r; constant })`
+fn nested_leak(st: &IncrState, l: &Var<i64>, x: &Var<i64>, y: &Var<i64>, log: &Rc<RefCell<Vec<String>>>) -> (Incr<i64>, Slot<i64>, Slot<i64>) {
+    let leaked_b2: Slot<i64> = Rc::new(RefCell::new(None));
+    let leaked_r: Slot<i64> = Rc::new(RefCell::new(None));
+    let (yw, xw) = (y.watch(), x.watch());
+    let (lb2, lr, lg) = (leaked_b2.clone(), leaked_r.clone(), log.clone());
+    let st2 = st.weak();
+    let b1 = l.bind(move |&v1| {
+        let (xw2, lr2, lg2) = (xw.clone(), lr.clone(), lg.clone());
+        let b2 = yw.bind(move |&v2| {
+            let lg3 = lg2.clone();
+            let r = xw2.map(move |&x| {
+                lg3.borrow_mut().push(format!("R(v1={v1}) ran with x={x}"));
+                x + v1 + v2
+            });
+            lr2.borrow_mut().replace(r.clone());
+            r
+        });
+        lb2.borrow_mut().replace(b2);
+        st2.constant(0i64)
+    });
+    (b1, leaked_b2, leaked_r)
+}
+
+/// A node R of an inner bind B2 (built by the closure of an outer bind B1) stays observed on its own
+/// while B2 is no longer necessary. When B1's input and R's input change in the same round, R was
+/// recomputed directly (an unnecessary bind has no height, so the scope test of the direct-recompute
+/// shortcut passed trivially) before B1's lhs-change node could invalidate it (defect #26, pointed
+/// out by a seeding agent).
+fn nested_scope_node_jumps_the_queue() -> Result<(), String> {
+    let st = IncrState::new();
+    let (l, x, y) = (st.var(100i64), st.var(1i64), st.var(7i64));
+    let log: Rc<RefCell<Vec<String>>> = Rc::new(RefCell::new(vec![]));
+    // an earlier dependant of l, so that B1's lhs-change node is not l's first one
+    let lg = log.clone();
+    let other = l.map(move |v| {
+        lg.borrow_mut().push(format!("l changed to {v}"));
+        *v
+    });
+    let _other_obs = other.observe();
+    st.stabilise();
+    let (b1, leaked_b2, leaked_r) = nested_leak(&st, &l, &x, &y, &log);
+    let _b1_obs = b1.observe();
+    st.stabilise();
+    let b2 = leaked_b2.borrow().clone().unwrap();
+    let b2_obs = b2.observe();
+    st.stabilise();
+    let r = leaked_r.borrow().clone().unwrap();
+    let r_obs = r.observe();
+    st.stabilise();
+    check!(r_obs.try_get_value() == Ok(108), "R {:?}", r_obs.try_get_value());
+    drop(b2_obs);
+    st.stabilise();
+    check!(r_obs.try_get_value() == Ok(108), "R after B2 went unobserved {:?}", r_obs.try_get_value());
+    log.borrow_mut().clear();
+    l.set(200);
+    x.set(2);
+    st.stabilise();
+    let lg = log.borrow().clone();
+    check!(!lg.iter().any(|s| s.starts_with("R(v1=100)")), "a node created by the previous run of the outer bind ran after the bind's input had changed (stale capture): {:?}", lg);
+    check!(r_obs.try_get_value() == Err(ObserverError::ObservingInvalid), "R reads {:?}", r_obs.try_get_value());
+    let a = st.verif_audit();
+    check!(a.is_empty(), "audit: {}", a.join(" / "));
+    Ok(())
+}
+
+/// KNOWN FINDING K3 (C03): `child_changed` evaluates the projection of a `map_ref` dependant as soon
+/// as its input has a new value, i.e. before the bind whose previous run created that `map_ref` has
+/// had a chance to re-run and invalidate it.
+fn mapref_projection_of_superseded_bind_run() -> Result<(), String> {
+    let st = IncrState::new();
+    let x = st.var(1i64);
+    let log: Rc<RefCell<Vec<(i64, i64)>>> = Rc::new(RefCell::new(vec![]));
+    let (xw, lg) = (x.watch(), log.clone());
+    let b = x.bind(move |&captured| {
+        let lg2 = lg.clone();
+        xw.map_ref(move |seen| {
+            lg2.borrow_mut().push((captured, *seen));
+            seen
+        })
+    });
+    let o = b.observe();
+    st.stabilise();
+    log.borrow_mut().clear();
+    x.set(2);
+    st.stabilise();
+    check!(o.try_get_value() == Ok(2), "value {:?}", o.try_get_value());
+    for (c, s) in log.borrow().iter() {
+        check!(c == s, "the map_ref projection built by the bind run for x={c} ran with x={s} (log {:?})", log.borrow());
+    }
+    Ok(())
+}
+
+/// KNOWN FINDING K3 (C03), second shape: the change callback of a dependency of an expert node.
+fn expert_edge_callback_of_superseded_bind_run() -> Result<(), String> {
+    let st = IncrState::new();
+    let x = st.var(1i64);
+    let log: Rc<RefCell<Vec<(i64, i64)>>> = Rc::new(RefCell::new(vec![]));
+    let (xw, lg, st2) = (x.watch(), log.clone(), st.weak());
+    let b = x.bind(move |&captured| {
+        let lg2 = lg.clone();
+        let node = ExpertNode::<i64>::new(&st2, move || captured);
+        node.add_dependency_with(&xw, move |seen: &i64| {
+            lg2.borrow_mut().push((captured, *seen));
+        });
+        node.watch()
+    });
+    let o = b.observe();
+    st.stabilise();
+    log.borrow_mut().clear();
+    x.set(2);
+    st.stabilise();
+    check!(o.try_get_value() == Ok(2), "value {:?}", o.try_get_value());
+    for (c, s) in log.borrow().iter() {
+        check!(c == s, "the change callback of the expert node built by the bind run for x={c} ran with x={s} (log {:?})", log.borrow());
+    }
+    Ok(())
+}
+
+/// KNOWN FINDING K4 (C03): as `nested_scope_node_jumps_the_queue`, but the inner bind is dropped
+/// altogether while its node R stays observed. R only knows its scope through a weak pointer to the
+/// inner bind, so nothing connects it to the outer bind any more: it is never invalidated.
+fn nested_scope_node_orphaned_by_dropped_inner_bind() -> Result<(), String> {
+    let st = IncrState::new();
+    let (l, x, y) = (st.var(100i64), st.var(1i64), st.var(7i64));
+    let log: Rc<RefCell<Vec<String>>> = Rc::new(RefCell::new(vec![]));
+    let (b1, leaked_b2, leaked_r) = nested_leak(&st, &l, &x, &y, &log);
+    let _b1_obs = b1.observe();
+    st.stabilise();
+    let b2 = leaked_b2.borrow_mut().take().unwrap();
+    let b2_obs = b2.observe();
+    st.stabilise();
+    let r = leaked_r.borrow_mut().take().unwrap();
+    let r_obs = r.observe();
+    st.stabilise();
+    check!(r_obs.try_get_value() == Ok(108), "R {:?}", r_obs.try_get_value());
+    drop(b2_obs);
+    drop(b2);
+    st.stabilise();
+    log.borrow_mut().clear();
+    l.set(200);
+    st.stabilise();
+    x.set(2);
+    st.stabilise();
+    check!(r_obs.try_get_value().is_err(), "a node created (through an inner bind that has been dropped) by the previous run of the outer bind is still valid after that bind re-ran: {:?}, log {:?}", r_obs.try_get_value(), log.borrow());
+    Ok(())
+}
+
+/// KNOWN FINDING K2 (C19): `set_max_height_allowed` compares with the greatest height *ever seen*,
+/// not with the greatest height in use.
+fn shrink_limit_after_tall_graph_released() -> Result<(), String> {
+    let st = IncrState::new_with_height(20);
+    let v = st.var(1i64);
+    {
+        let mut n = v.map(|x| x + 1);
+        for _ in 0..8 {
+            n = n.map(|x| x + 1);
+        }
+        let o = n.observe();
+        st.stabilise();
+        check!(o.try_get_value() == Ok(10), "chain {:?}", o.try_get_value());
+    }
+    st.stabilise(); // the chain is unlinked and deallocated
+    let live = st.verif_max_height_in_use();
+    check!(live <= 2, "greatest height in use after the chain was released: {live}");
+    st.set_max_height_allowed(5); // at least the greatest height in use
+    let n = v.map(|x| x + 1).map(|x| x * 2);
+    let o = n.observe();
+    st.stabilise();
+    check!(o.try_get_value() == Ok(4), "after shrinking {:?}", o.try_get_value());
     Ok(())
 }
